@@ -443,7 +443,9 @@ func callSSA(ex *exec, caller *frame, callpos token.Pos, fn *ssa.Function, args 
 	if ex.hashAbstract && fn == ex.prog.hashFn {
 		return ex.hashModel(args)
 	}
-	if ext := ex.prog.intrinsic(fn, name); ext != nil {
+	if ex.bypassIntrinsic == fn {
+		ex.bypassIntrinsic = nil // one call of the real body (vf.RealFormatting)
+	} else if ext := ex.prog.intrinsic(fn, name); ext != nil {
 		return ext(fr, args)
 	}
 	if ex.inInit > 0 && fn.Pkg != nil && fn.Name() == "init" && fn == fn.Pkg.Func("init") {
